@@ -124,14 +124,16 @@ class FullDecider(MaxDepthDecider):
     def choose_production_alternatives(self, ty: type, alternatives: list[type], ctx: LocalSynthesisContext) -> type:
         assert len(alternatives) > 0, "No alternatives presented"
         if ctx.depth <= self.max_depth:
+            # prefer what still reaches the maximum depth exactly: recursive productions that fit, and
+            # productions whose minimum depth is all that is left
             c_alternatives = [
                 x
                 for x in alternatives
                 if (
                     x in self.grammar.recursive_prods
-                    and self.grammar.get_distance_to_terminal(x) < (self.max_depth - ctx.depth)
+                    and self.grammar.get_distance_to_terminal(x) <= (self.max_depth - ctx.depth)
                 )
-                or self.grammar.get_distance_to_terminal(x) == (self.max_depth - ctx.depth - 1)
+                or self.grammar.get_distance_to_terminal(x) == (self.max_depth - ctx.depth)
             ]
         else:
             c_alternatives = []
